@@ -173,7 +173,7 @@ CLAIMED = {
         note="Exploration: the residual thresholds are float comparisons in the harness (ok below 1e-6 relative to the load scale with solver "
              "tolerance 1e-8, violated above 1e-4, not judged in between); the model decides which blocks a returned point must satisfy. Runs that "
              "raise or stop early are judged under C21 (they must say so); the rows they return are judged here. Loads are small enough for a "
-             "unique equilibrium branch. The frame block is evaluated for Newton (same load steps in both frames).",
+             "unique equilibrium branch.",
         technique="TLA+ table of enforced residual blocks model-checked by TLC + TLC trace validation of every load step returned by the real static solvers",
         ref="5/C23",
     ),
